@@ -5,62 +5,42 @@ from .c05 import guard_tables
 
 LEVEL = 'other'
 FINITE = ('below', 'first', 'inside', 'last', 'above')
-CS = 'interp1d::strategies::cubic_spline::CubicSpline'
-BUILD = '<interp1d::strategies::cubic_spline::CubicSpline as interp1d::strategies::Interp1DStrategyBuilder>::build'
-BC = 'interp1d::strategies::cubic_spline::BoundaryCondition'
+CS = 'CubicSpline'
+BUILD = '<CubicSpline as Interp1DStrategyBuilder>::build'
+BC = 'BoundaryCondition'
 
 
-class BuildModel(KModel):
-    def call(self, name, cal, args, e, frame):
-        if name.endswith('::calc_coefficients'):
-            return OK(Tup([Obj('data', name='a', lead=1, idx=[]), Obj('data', name='b', lead=1, idx=[])]))
-        return super().call(name, cal, args, e, frame)
+from ..strategies import BuildModel, spline_builder, spline_finished
+from ..kernels import behaviour_class
+
+WANT = {'No': 'rejects', 'Yes': 'extrapolates', 'Periodic': 'wraps'}
 
 
 def extrapolate_selection(chk, lib, rule, flags=(False, True)):
+    """the strategy CubicSpline::build returns for every (flag, boundary kind, order of the public setters), classified by what it
+    does with an out-of-range query (no private name is consulted)"""
     b = anchor(chk, lib, BUILD, rule)
     if b is None:
         return
     n = 0
-    NEW, SETE, SETB = CS + '::new', CS + '::extrapolate', CS + '::boundary'
-    for p in (NEW, SETE, SETB):
+    for p in (CS + '::new', CS + '::extrapolate', CS + '::boundary'):
         if anchor(chk, lib, p, rule) is None:
             return
-
-    def configured(flag, bc, order):
-        """the strategy builder as a user obtains it: new() followed by the public setters in the given order"""
-        it = Interp(lib, BuildModel())
-        s = deref_all(it.call_norm(NEW, []))
-        fields = {'0': Obj('bounds')} if bc == 'Individual' else {}
-        for step in order:
-            if step == 'e':
-                s = deref_all(it.call_norm(SETE, [s, B(flag)]))
-            elif step == 'E':       # toggled: the opposite value first, then the wanted one
-                s = deref_all(it.call_norm(SETE, [s, B(not flag)]))
-                s = deref_all(it.call_norm(SETE, [s, B(flag)]))
-            else:
-                s = deref_all(it.call_norm(SETB, [s, Enum(BC, bc, fields)]))
-        return s
     for flag in flags:
         for bc in ('NotAKnot', 'Natural', 'Clamped', 'Periodic', 'Individual'):
           for order in ('eb', 'be', 'Eb', 'bE'):
             want = 'No' if not flag else ('Periodic' if bc == 'Periodic' else 'Yes')
             try:
-                s = configured(flag, bc, order)
+                s = spline_builder(lib, flag, bc, order)
             except (Unsupported, Diverge) as ex:
                 chk.ob(rule, "CubicSpline::new / extrapolate / boundary are plain configuration steps: %s" % ex, False, ex.where, 'setters-%s-%s-%s' % (flag, bc, order))
                 continue
             try:
-                out = deref_all(Interp(lib, BuildModel()).call_def(b['def'], [s, Ref(ValPlace(Obj('axis', name='x'))),
-                                                                              Ref(ValPlace(Obj('data', name='y', lead=1, idx=[])))]))
-                got = None
-                if isinstance(out, Enum) and out.variant == 'Ok':
-                    st = deref_all(out.fields['0'])
-                    ex = st.fields.get('extrapolate') if isinstance(st, Enum) else None
-                    got = ex.variant if isinstance(ex, Enum) else None
+                st = spline_finished(lib, s)
+                got = behaviour_class(lib, st)
                 n += 1
-                chk.ob(rule, "CubicSpline configured (setter order %s) with extrapolate=%s, boundary=%s: build selects Extrapolate::%s (got %s)" % (order, flag, bc, want, got),
-                       got == want, b['span'], 'select-%s-%s-%s' % (flag, bc, order))
+                chk.ob(rule, "CubicSpline configured (setter order %s) with extrapolate=%s, boundary=%s: the built strategy %s out-of-range queries (got: %s)" %
+                       (order, flag, bc, WANT[want], got), got == WANT[want], b['span'], 'select-%s-%s-%s' % (flag, bc, order))
             except (Unsupported, Diverge) as ex:
                 chk.ob(rule, "CubicSpline::build is a decision over (flag, boundary kind): %s" % ex, False, ex.where, 'select-%s-%s-%s' % (flag, bc, order))
     return n
@@ -74,6 +54,8 @@ def run(chk):
     chk.rule('R6.3', "outside the range the written value is the same polynomial expression in the unmodified query as inside "
                      "(no clamping of the query; the bracket index is whatever the lookup returns - its clamping is C11)")
     chk.rule('R6.4', "CubicSpline::build maps (flag, boundary) to Extrapolate::{No, No, Yes, Periodic}")
+    chk.rule('R6.5', "the query entry points (scalar, single, array, *_into; rank-1 fast path and general path; 1-D and 2-D) add no rejection of their own: "
+                     "with well-shaped arguments and a strategy that answers they return Ok after handing every element to the strategy")
     chk.assumptions += ["'up to rounding' is not decided; continuity across the range ends follows from R6.3 + C11's index clamps over the reals"]
     for p in (LIN, SPL, BIL):
         if anchor(chk, lib, p, 'R6.1') is None:
@@ -134,6 +116,9 @@ def run(chk):
     chk.floor('R6.1', 'kernel runs compared', len(ref), 8 + 13 + 34)
     n4 = extrapolate_selection(chk, lib, 'R6.4') or 0
     chk.floor('R6.4', 'selection table entries', n4, 40)
+    from . import entry
+    n5 = entry.never_rejects_itself(chk, lib, 'R6.5')
+    chk.floor('R6.5', 'entry-point runs with an answering strategy', n5, 14)
     chk.sample({"linear lane expression (all flags, all finite scenarios)": str(base_l[0])})
     chk.exhaustive = True
     chk.explanation = ("For each strategy the lane expression and the lookup argument were extracted for every (flag, finite "
